@@ -44,7 +44,8 @@ P = {
     "C22": dict(theorems=["Properties/C22.v"],
                 runs=[dict(cmd="c22", quick=80, thorough=8000, shards_thorough=8)], vm_k=4),
     "C26": dict(theorems=["Properties/C26.v"],
-                runs=[dict(cmd="c26", quick=80, thorough=8000, shards_thorough=8)], vm_k=4),
+                runs=[dict(cmd="c26", quick=80, thorough=8000, shards_thorough=8),
+                      dict(cmd="c26node", quick=10, thorough=400, shards_thorough=8, model=False)], vm_k=4),
     "C27": dict(theorems=["Properties/C27.v"],
                 runs=[dict(cmd="c27", quick=80, thorough=8000, shards_thorough=8),
                       dict(cmd="c27node", quick=10, thorough=400, shards_thorough=8)], vm_k=4),
@@ -162,7 +163,7 @@ META = {
     "C22": dict(text="Theorems: every creation uses id = counter + 1 and sets the counter; along any history ids stay <= counter and the counter never decreases (ids never reused); create requires an unused ticker and makes the sender owner; recreate / edit owner / mint only by the ticker owner; recreate versions the old coin (max+1 mod 2^16) and gives the new one a fresh id and version 0; mint only on the active mintable coin within max supply; ACTIVE TICKERS ARE UNIQUE along every history in which no recreation wraps a ticker's uint16 version counter (C22_active_tickers_unique: distinct ids, at most one version-0 coin per ticker, invariant by induction over operations), and the statement is refuted at the wrap (C22_unique_refuted_at_version_wrap; reproduced on the node from a genesis with an archived version 65535: KNOWN FINDING c22-version-wrap). " + LM + "Registry monitors on node exports (unique active tickers, unique ids, counter).",
                 note=LN + "Pool-token creation (CreateSwapPool) is not in this model.",
                 technique="Coq proof (per-type specifications, id and ticker-uniqueness invariants over histories, refutation witness at the version wrap) + differential correspondence on the real node + registry monitors"),
-    "C26": dict(text="REFUTED for the code, proved: a transaction failing inside Run is charged the failure fee, keeps its nonce, and is charged again on re-delivery (C26_refuted, witness evaluated in Coq; reproduced on the node: KNOWN FINDING c26-failed-redelivery). Proved partial results: after a successful delivery every re-delivery is rejected with the state untouched; gate rejections never charge; one failing delivery costs at most the failure fee and at most the balance. " + LM + "The harness re-delivers earlier bytes (accepted and failed) and watches the payer.",
+    "C26": dict(text="REFUTED for the code, proved: a transaction failing inside Run is charged the failure fee, keeps its nonce, and is charged again on re-delivery (C26_refuted, witness evaluated in Coq; reproduced on the node: KNOWN FINDING c26-failed-redelivery). Proved partial results: after a successful delivery every re-delivery is rejected with the state untouched; gate rejections never charge; one failing delivery costs at most the failure fee and at most the balance. " + LM + "The harness re-delivers earlier bytes (accepted and failed) and watches the payer. Node-level replay monitor (c26node): in histories of all 33 transaction kinds the signed bytes of accepted transactions are delivered again, right after their first delivery in the same block and in later blocks: never accepted twice.",
                 note=LN + "Repair would need replay protection keyed by tx hash (new consensus state); C03 forbids advancing the nonce on failure: recorded as known finding, not patched.",
                 technique="Coq proof (refutation witness + partial theorems) + differential correspondence on the real node + re-delivery monitor"),
     "C27": dict(text="Theorems: an accepted transaction paid in base coin adds gas price x (type price + (payload+service bytes) x byte price) to the reward pool, less the ticker fee of a coin creation which goes from the reward pool to the zero address; a rejected one adds at most the failed-transaction price; type prices per table entry (Multisend base + delta x (n-1), ticker by length). " + LM + "Monitor: reward-pool growth per accepted transaction against the price table. Route choice (Model/FeeRoute.v = CalculateCommission; C27_cheaper_route, C27_route_is_an_available_quote, C27_no_route_refused), tied by model 22 and a node-level route monitor (c27node): on histories with bancor coins that also have a pool to the base coin, for every accepted transaction paying its commission in such a coin the charged amount and the tx.commission_conversion tag must be the cheaper of formula.CalculateSaleAmount on the pre-state reserve and the pool quote on a pre-state copy of the pool (tie: pool).",
